@@ -492,6 +492,59 @@ fn check_operand_immutability(ctx: &Ctx) {
     }
 }
 
+/// (i-b) the WASM entry point that evaluates a *batch* of inline expressions: every expression of a batch
+/// gives what it gives when it is the only one (an earlier expression - successful or failed - that binds
+/// a name must not be visible to a later one).
+fn check_inline_batches(ctx: &Ctx) {
+    use crate::wasmdrv::blots_wasm;
+    let exprs = [
+        "t = n * 2", "t + 1", "t = n * 3", "n + 1", "(t = 2) + \"a\"", "t", "[u = [n], u]", "u", "f = x => x + n", "f(1)", "do {\n  w = 5\n  return w\n}", "w", "inputs.n", "#n", "nope", "[1, 2] via (x => x * n)",
+    ];
+    let inputs = json!({"n": {"Number": 4.0}});
+    let single: Vec<String> = exprs.iter().map(|e| format!("{:?}", catch(|| blots_wasm::evaluate_inline_expressions(json!([e]), inputs.clone())))).collect();
+    // every ordered pair and the whole list as batches
+    let mut batches: Vec<Vec<usize>> = vec![(0..exprs.len()).collect(), (0..exprs.len()).rev().collect()];
+    for i in 0..exprs.len() {
+        for j in 0..exprs.len() {
+            batches.push(vec![i, j]);
+        }
+    }
+    for b in &batches {
+        let texts: Vec<&str> = b.iter().map(|i| exprs[*i]).collect();
+        let got = catch(|| blots_wasm::evaluate_inline_expressions(json!(texts), inputs.clone()));
+        ctx.count(1);
+        ctx.nontrivial(&format!("inline-batch:{:?}", b));
+        ctx.outcome("inline-batch");
+        // compare element-wise with the single-expression results (the response is an array of results)
+        let got_items: Option<Vec<J>> = match &got {
+            Ok(Ok(j)) => j.as_array().cloned(),
+            _ => None,
+        };
+        if got_items.as_ref().map(|a| a.len()) == Some(b.len()) {
+            ctx.outcome("inline-batch-array");
+        }
+        for (pos, i) in b.iter().enumerate() {
+            let alone: Option<J> = match catch(|| blots_wasm::evaluate_inline_expressions(json!([exprs[*i]]), inputs.clone())) {
+                Ok(Ok(j)) => j.as_array().and_then(|a| a.first().cloned()),
+                _ => None,
+            };
+            let here = got_items.as_ref().and_then(|a| a.get(pos).cloned());
+            if alone != here {
+                ctx.violation(Violation {
+                    kind: "history-dependent".into(),
+                    class: "wasm-inline-batch".into(),
+                    input: format!("evaluate_inline_expressions({:?}) - expression {} `{}`", texts, pos, exprs[*i]),
+                    expected: truncate(&format!("{:?}", alone), 200),
+                    observed: truncate(&format!("{:?}", here), 200),
+                    case: json!({"inline": exprs[*i], "abstracted": exprs[*i]}),
+                });
+                break;
+            }
+        }
+    }
+    let _ = single;
+}
+
 /// Every script over the logged choice points with at most `max_dev` non-default answers.
 fn deviation_scripts(log: &[(usize, usize)], max_dev: usize) -> Vec<Vec<usize>> {
     let mut out: Vec<Vec<usize>> = vec![];
@@ -676,6 +729,7 @@ pub fn run(ctx: &Ctx, replay: Option<&J>) -> i32 {
     }
     ctx.set("expressions", json!(exprs.len()));
     par_for_ctx(ctx, exprs.len(), |i| check_expression(ctx, &exprs[i]));
+    check_inline_batches(ctx);
     check_operand_immutability(ctx);
     check_repeated_subexpression(ctx);
     check_order_abstraction(ctx);
@@ -702,6 +756,7 @@ pub fn run(ctx: &Ctx, replay: Option<&J>) -> i32 {
     ctx.require_outcome("history-case", 1000);
     ctx.require_outcome("iteration-order-case", 100);
     ctx.require_outcome("let-abstraction-checked", 500);
+    ctx.require_outcome("inline-batch-array", 100);
     ctx.require_outcome("expression-evaluates", 100);
     ctx.assume("time_now and print are excluded; for scopes with more than 4 names only n+1 of the n! iteration orders are enumerated; at most two simultaneous non-default iteration orders");
     finish(
